@@ -61,7 +61,7 @@ func VerifC23Monotone() {
 	now := verif_nondet_in("now", 2, 1<<40)
 	later := verif_nondet_in("later", 2, 1<<40)
 	ts := verif_nondet_in("delegation.Timestamp", 0, 1<<40)
-	amount := verif_nondet_ubig("amount", 64)
+	amount := verif_nondet_ubig("amount", verif_param("amount_bits", 16))
 	verif_assume(now <= later && ts <= now)
 	// a delegation whose credit was never set (first delegation), the shape Delegate() creates
 	d := types.Delegation{Provider: "p", Delegator: "d", Amount: verifC23Coin(amount), Credit: verifC23Coin(big.NewInt(0)), Timestamp: ts, CreditTimestamp: 0}
